@@ -9,8 +9,119 @@ theorem init_GInv : GInv ({} : MState).ss := by
 theorem GInv_clients (ss : SState) (cl : List Client) (h : GInv ss) : GInv { ss with clients := cl } :=
   ⟨h.codesBelow, h.refreshBelow, h.idx, h.codeRT, h.codeIds⟩
 
-/-- every endpoint program is safe -/
-theorem prog_safe (s : MState) (op : Op) (p : Prog Out) (hp : op.prog s = some p) (hinv : GInv s.ss) :
+theorem GInv_device_oidc (ss : SState) (dev : List (Nat × DevRec)) (oidc : List (Nat × Req)) (h : GInv ss) :
+    GInv { ss with store := { ss.store with device := dev, oidc := oidc } } :=
+  ⟨h.codesBelow, h.refreshBelow, h.idx, h.codeRT, h.codeIds⟩
+
+/-- The operations for which the grant invariant is proved to be preserved.  `devicePoll` and
+    `authorizePar` create tokens / codes under a request id taken from a device or PAR record; the
+    invariant does not yet track those tables, so histories containing them are outside the proved
+    fragment (they are covered by the correspondence and the monitors). -/
+def Op.tracked : Op → Bool
+  | .devicePoll _ | .authorizePar _ => false
+  | _ => true
+
+theorem calm_clientCredentialsProg (cfg now q) : calm (clientCredentialsProg cfg now q) := by
+  apply calm_run
+  unfold clientCredentialsH
+  apply calmH_bind _ _ (calmH_expectNat _ _ (by guardless) (fun _ => calm_retErr _)); intro _
+  apply calmH_bind _ _ (calmH_authenticate _ _); intro client
+  apply calmH_bind _ _ (calmH_guard _ _); intro _
+  apply calmH_bind _ _ (calmH_optErr _); intro _
+  apply calmH_bind _ _ (calmH_guard _ _); intro _
+  apply calmH_bind _ _ (calmH_guard _ _); intro _
+  apply calmH_bind _ _ (calmH_expectNat _ _ (by guardless) (fun _ => calm_retErr _)); intro _
+  exact calmH_pure _
+
+theorem calm_deviceAuthProg (cfg now q) : calm (deviceAuthProg cfg now q) := by
+  apply calm_run
+  unfold deviceAuthH
+  apply calmH_bind _ _ (calmH_authenticate _ _); intro client
+  apply calmH_bind _ _ (calmH_guard _ _); intro _
+  apply calmH_bind _ _ (calmH_guard _ _); intro _
+  apply calmH_bind _ _ (calmH_guard _ _); intro _
+  apply calmH_bind _ _ (calmH_optErr _); intro _
+  apply calmH_bind _ _ (calmH_expectNat _ _ (by guardless) (fun _ => calm_retErr _)); intro _
+  apply calmH_bind _ _ (calmH_expectNat _ _ (by guardless) (fun _ => calm_retErr _)); intro _
+  exact calmH_pure _
+
+theorem calm_parPushProg (cfg now p) : calm (parPushProg cfg now p) := by
+  apply calm_run
+  unfold parPushH
+  apply calmH_bind _ _ (calmH_authenticate _ _); intro _
+  apply calmH_bind _ _ (calmH_guard _ _); intro _
+  apply calmH_bind _ _ (calmH_expectClient _ _ (by guardless)); intro client
+  apply calmH_bind _ _ (calmH_guard _ _); intro _
+  apply calmH_bind _ _ (calmH_optErr _); intro _
+  apply calmH_bind _ _ (calmH_guard _ _); intro _
+  split
+  · exact calmH_pure _
+  · apply calmH_bind _ _ (calmH_guard _ _); intro _
+    apply calmH_bind _ _ (calmH_guard _ _); intro _
+    apply calmH_bind _ _ (calmH_optErr _); intro _
+    apply calmH_bind _ _ (calmH_expectNat _ _ (by guardless) (fun _ => calm_retErr _)); intro _
+    apply calmH_bind _ _ (calmH_expectNat _ _ (by guardless) (fun _ => calm_retErr _)); intro _
+    exact calmH_pure _
+
+/-- the password grant creates its refresh token under a request id allocated in the same request -/
+theorem password_safe (rc : RunCfg) (hp : Plain rc) (cfg : Config) (now : Time) (q : DirectReq) (rs : RState)
+    (hinv : GInv rs.ss) : safeH rc (passwordH cfg now q) (fun _ _ => True) rs := by
+  have hnf := hp.1
+  unfold passwordH
+  simp only [safeH_bind, safeH_callH, safeH_guard, safeH_pure, authenticate, safeH_expectClient, safeH_optErr,
+    safeH_expectNat _ _ _ _ _ (fun _ => calm_retErr _)]
+  refine ⟨guard_trivial _ _ (by guardless), ?_⟩
+  intro rid hrid
+  refine ⟨guard_trivial _ _ (by guardless), ?_⟩
+  intro client hcl _ _ _ _ _
+  refine ⟨guard_trivial _ _ (by guardless), ?_⟩
+  have h1 := step_eq_exec rc rs .newId rfl _ hrid (by intro e; simp)
+  have h2 := step_eq_exec rc (rs.step rc .newId).1 (.getClient q.clientId) rfl _ hcl (by intro e; simp)
+  rw [exec_getClient_fst] at h2
+  have hridn : rid = rs.ss.next := exec_newId_nat _ _ h1.2
+  subst hridn
+  generalize hres : (RState.step rc (RState.step rc (RState.step rc rs .newId).1 (.getClient q.clientId)).1
+    (.authenticateUser q.username q.userOk)).2 = ures
+  have h3 := step_eq_exec rc _ (.authenticateUser q.username q.userOk) rfl _ hres
+  cases ures with
+  | ok =>
+    have h3' := h3 (by intro e; simp)
+    have hss3 : (RState.step rc (RState.step rc (RState.step rc rs .newId).1 (.getClient q.clientId)).1
+        (.authenticateUser q.username q.userOk)).1.ss = (rs.ss.exec .newId).1 := by
+      rw [h3'.1, h2.1, h1.1]; simp only [SState.exec]; split <;> rfl
+    simp only [safeH_bind, safeH_expectNat _ _ _ _ _ (fun _ => calm_retErr _), safeH_ite, safeH_pure]
+    refine ⟨guard_trivial _ _ (by guardless), ?_⟩
+    intro atk hat
+    have h4 := step_eq_exec rc _ (.createAccess _) rfl _ hat (by intro e; simp)
+    refine ⟨?_, fun _ => trivial⟩
+    intro _
+    refine ⟨?_, fun _ _ => trivial⟩
+    intro _
+    -- the guard of createRefresh: the request id is the one just allocated
+    rw [h4.1, hss3]
+    refine ⟨?_, ?_, ?_⟩
+    · show rs.ss.next < _
+      rw [(exec_createAccess_frame _ _).2.2.2, exec_newId_next]; omega
+    · intro s r hl _
+      show r.req.id ≠ rs.ss.next
+      rw [(exec_createAccess_frame _ _).1, (exec_newId_ss rs.ss).1] at hl
+      have := (hinv.refreshBelow s r hl).2; omega
+    · intro s c hl _
+      show c.req.id ≠ rs.ss.next
+      rw [(exec_createAccess_frame _ _).2.1, (exec_newId_ss rs.ss).1] at hl
+      have := (hinv.codesBelow s c hl).2; omega
+  | notFound => simp only [Res.errKind]; exact safeH_fail rc _ _ _
+  | req _ => simp only [Res.errKind]; exact safeH_fail rc _ _ _
+  | inactive _ => simp only [Res.errKind]; exact safeH_fail rc _ _ _
+  | client _ => simp only [Res.errKind]; exact safeH_fail rc _ _ _
+  | nat _ => simp only [Res.errKind]; exact safeH_fail rc _ _ _
+  | par _ => simp only [Res.errKind]; exact safeH_fail rc _ _ _
+  | dev _ => simp only [Res.errKind]; exact safeH_fail rc _ _ _
+  | usedDev _ => simp only [Res.errKind]; exact safeH_fail rc _ _ _
+  | fail e => exact absurd hres (step_no_fail rc hnf _ _ e)
+
+/-- every tracked endpoint program is safe -/
+theorem prog_safe (s : MState) (op : Op) (p : Prog Out) (hp : op.prog s = some p) (ht : op.tracked = true) (hinv : GInv s.ss) :
     safeK {} p (fun _ _ => True) { ss := s.ss } := by
   cases op with
   | authorize q => cases hp; exact safeH_run _ _ _ (authorize_safe {} plain_default _ _ _ _ _ hinv)
@@ -18,23 +129,40 @@ theorem prog_safe (s : MState) (op : Op) (p : Prog Out) (hp : op.prog s = some p
   | refresh q => cases hp; exact safeH_run _ _ _ (refresh_safe {} plain_default _ _ _ _ hinv)
   | revoke q => cases hp; exact safeK_of_calm _ _ _ (calm_revokeProg q)
   | introspect q => cases hp; exact safeK_of_calm _ _ _ (calm_introspectProg _ _ q)
+  | clientCredentials q => cases hp; exact safeK_of_calm _ _ _ (calm_clientCredentialsProg _ _ q)
+  | password q => cases hp; exact safeH_run _ _ _ (password_safe {} plain_default _ _ _ _ hinv)
+  | deviceAuthorize q => cases hp; exact safeK_of_calm _ _ _ (calm_deviceAuthProg _ _ q)
+  | parPush q => cases hp; exact safeK_of_calm _ _ _ (calm_parPushProg _ _ q)
+  | devicePoll q => cases ht
+  | authorizePar q => cases ht
   | setCfg _ => cases hp
   | setClient _ => cases hp
   | advance _ => cases hp
+  | deviceDecide _ _ _ _ _ => cases hp
 
-/-- **The grant invariant is preserved by every operation.** -/
-theorem step_GInv (s : MState) (op : Op) (h : GInv s.ss) : GInv (step s op).1.ss := by
+/-- **The grant invariant is preserved by every tracked operation.** -/
+theorem step_GInv (s : MState) (op : Op) (ht : op.tracked = true) (h : GInv s.ss) : GInv (step s op).1.ss := by
   cases hp : op.prog s with
   | some p =>
     rw [(step_prog s op p hp).1]
-    exact (safeK_sound {} plain_default p _ _ h (prog_safe s op p hp h)).1
+    exact (safeK_sound {} plain_default p _ _ h (prog_safe s op p hp ht h)).1
   | none =>
-    cases op <;> simp_all [step, Op.prog] <;> exact GInv_clients _ _ h
+    cases op with
+    | setCfg c => exact h
+    | setClient c => exact GInv_clients _ _ h
+    | advance d => exact h
+    | deviceDecide sig acc gs ga sub =>
+      simp only [step]
+      cases hl : alookup s.ss.store.device sig with
+      | none => exact h
+      | some d => exact GInv_device_oidc _ _ _ h
+    | _ => simp [Op.prog] at hp
 
-theorem after_GInv (ops : List Op) (s : MState) (h : GInv s.ss) : GInv (after s ops).ss := by
+theorem after_GInv (ops : List Op) (s : MState) (ht : ∀ op ∈ ops, op.tracked = true) (h : GInv s.ss) : GInv (after s ops).ss := by
   induction ops generalizing s with
   | nil => exact h
-  | cons op ops ih => exact ih _ (step_GInv s op h)
+  | cons op ops ih =>
+    exact ih _ (fun o ho => ht o (List.mem_cons_of_mem _ ho)) (step_GInv s op (ht op List.mem_cons_self) h)
 
 /-- the refresh token is known to the server and can never be exchanged (any more) -/
 def RTDead (ss : SState) (sig : Nat) : Prop :=
@@ -58,6 +186,6 @@ theorem exec_RTDead (ss : SState) (c : Call) (sig : Nat) (h : RTDead ss sig) : R
     | true => have := hd rec0 hl0; rw [hact ha] at this; cases this
 
 theorem step_RTDead (s : MState) (op : Op) (sig : Nat) (h : RTDead s.ss sig) : RTDead (step s op).1.ss sig :=
-  step_preserves (fun ss => RTDead ss sig) (fun ss c h => exec_RTDead ss c sig h) (fun _ _ h => h) s op h
+  step_preserves (fun ss => RTDead ss sig) (fun ss c h => exec_RTDead ss c sig h) (fun _ _ h => h) (fun _ _ _ h => h) s op h
 
 end Fosite.Model
